@@ -20,7 +20,7 @@ import time
 from concurrent.futures import ThreadPoolExecutor
 
 VERIF = os.path.dirname(os.path.dirname(os.path.abspath(__file__)))
-REPO = os.environ.get("VERIF_REPO", "/repo")
+REPO = os.environ.get("VERIF_REPO") or "/repo"
 SCRATCH_ROOT = os.environ.get("VERIF_SCRATCH", "/var/tmp")
 COQDIR = os.path.join(VERIF, "coq")
 PY = "/venv/bin/python"
@@ -74,11 +74,12 @@ def build_impl(log=None):
             shutil.rmtree(os.path.join(dst, "tmp"), ignore_errors=True)
             open(os.path.join(dst, ".built"), "w").write(str(time.time()))
         os.utime(dst)
-        # prune: keep the 3 most recently used builds
+        # prune: keep the 16 most recently used builds, never one used within the last 2 hours
         ents = [os.path.join(cache, e) for e in os.listdir(cache) if not e.startswith(".")]
         ents.sort(key=lambda p: os.path.getmtime(p), reverse=True)
-        for p in ents[3:]:
-            shutil.rmtree(p, ignore_errors=True)
+        for p in ents[16:]:
+            if time.time() - os.path.getmtime(p) > 7200:
+                shutil.rmtree(p, ignore_errors=True)
     return dst
 
 
@@ -166,6 +167,48 @@ def split_top(s, sep=";"):
     last = "".join(cur).strip()
     if last:
         out.append(last)
+    return out
+
+
+def coq_lemmas(workdir, preamble, lemmas, shard=12, timeout=900, tag="lem", flags=None):
+    """Compile generated lemmas (per-case certificates, e.g. closed by `interval`).
+    lemmas: list of (statement, proof_script).  Returns list of (ok: bool, message).
+    A shard that fails to compile is re-run lemma by lemma so that every failure is attributed."""
+    os.makedirs(workdir, exist_ok=True)
+
+    def write(p, items):
+        with open(p, "w") as f:
+            f.write(preamble + "\n")
+            for j, (st, pr) in items:
+                f.write("Lemma case_%d : %s.\nProof. %s Qed.\n" % (j, st, pr))
+
+    idx = list(enumerate(lemmas))
+    shards = [idx[i:i + shard] for i in range(0, len(idx), shard)]
+    files = []
+    for k, sh in enumerate(shards):
+        p = os.path.join(workdir, "%s_%d.v" % (tag, k))
+        write(p, sh)
+        files.append(p)
+    with ThreadPoolExecutor(NCPU) as ex:
+        res = list(ex.map(lambda p: coqc_file(p, timeout, flags), files))
+    out = [None] * len(lemmas)
+    redo = []
+    for (rc, txt), sh in zip(res, shards):
+        if rc == 0:
+            for j, _ in sh:
+                out[j] = (True, "")
+        else:
+            redo.extend(sh)
+    if redo:
+        files = []
+        for j, item in redo:
+            p = os.path.join(workdir, "%s_single_%d.v" % (tag, j))
+            write(p, [(j, item)])
+            files.append(p)
+        with ThreadPoolExecutor(NCPU) as ex:
+            res = list(ex.map(lambda p: coqc_file(p, timeout, flags), files))
+        for (j, _), (rc, txt) in zip(redo, res):
+            out[j] = (rc == 0, txt[-1500:])
     return out
 
 
@@ -338,6 +381,27 @@ def cfloat(x):
 def cq(fr):
     """fractions.Fraction -> Coq Q literal"""
     return "(%d # %d)%%Q" % (fr.numerator, fr.denominator)
+
+
+def dyadic(x):
+    """exact value of a finite python float as (numerator, denominator) integers"""
+    from fractions import Fraction
+    fr = Fraction(float(x))
+    return fr.numerator, fr.denominator
+
+
+def cR(x):
+    """finite python float -> Coq real-number term denoting EXACTLY that binary64 value"""
+    n, d = dyadic(x)
+    if d == 1:
+        return "(%d)%%R" % n if n >= 0 else "(- %d)%%R" % (-n)
+    return "(%d / %d)%%R" % (n, d) if n >= 0 else "(- %d / %d)%%R" % (-n, d)
+
+
+def cQ(x):
+    """finite python float -> Coq Q literal denoting exactly that binary64 value"""
+    n, d = dyadic(x)
+    return "(%d # %d)%%Q" % (n, d)
 
 
 def cresult(r, f):
